@@ -67,6 +67,8 @@ pub fn t_string_ops(s: &str) -> Vec<String> { let mut t = String::from(s); t.ins
 
 pub fn t_local_closure(s: &str) -> Vec<String> { let digits = |part: &str| -> String { part.chars().filter(|c| c.is_ascii_digit()).collect() }; match s.split_once(',') { Some((a, b)) => vec![digits(a), digits(b)], None => vec![digits(s)] } }
 
+pub fn t_uint_ops(s: &str) -> Vec<String> { let n = s.len() as u32; let d = (s.bytes().next().unwrap_or(3) % 7 + 1) as u32; vec![n.div_ceil(d).to_string(), n.next_multiple_of(d).to_string(), n.abs_diff(d).to_string(), n.rem_euclid(d).to_string(), n.is_power_of_two().to_string(), u128::BITS.div_ceil(d).to_string(), (n + 1).ilog2().to_string(), n.saturating_mul(4000000000).to_string()] }
+
 pub type TestFn = fn(&str) -> Vec<String>;
 pub const TESTS: &[(&str, TestFn)] = &[
     ("t_rsplit_once_char", t_rsplit_once_char), ("t_rsplit_once_str", t_rsplit_once_str), ("t_split_once_char", t_split_once_char), ("t_split_once_str", t_split_once_str),
@@ -78,5 +80,5 @@ pub const TESTS: &[(&str, TestFn)] = &[
     ("t_take_while", t_take_while), ("t_positions", t_positions), ("t_sum", t_sum), ("t_max_min", t_max_min), ("t_max_by_key", t_max_by_key), ("t_step_by", t_step_by), ("t_rev", t_rev),
     ("t_slice_starts", t_slice_starts), ("t_split_first", t_split_first), ("t_split_last", t_split_last), ("t_vec_ops", t_vec_ops), ("t_swap_remove", t_swap_remove), ("t_to_digit", t_to_digit),
     ("t_utf16", t_utf16), ("t_retain", t_retain), ("t_join", t_join), ("t_enumerate_filter", t_enumerate_filter), ("t_zip_chain", t_zip_chain), ("t_last_nth", t_last_nth), ("t_any_all", t_any_all),
-    ("t_fold", t_fold), ("t_local_closure", t_local_closure), ("t_string_ops", t_string_ops),
+    ("t_fold", t_fold), ("t_uint_ops", t_uint_ops), ("t_local_closure", t_local_closure), ("t_string_ops", t_string_ops),
 ];
